@@ -229,6 +229,67 @@ theorem periodic2_eq_zero_iff (S : Int) (a b : Int × Int) (ha1 : 0 ≤ a.1 ∧ 
   · intro h
     rw [z1.mpr (by rw [h]), z2.mpr (by rw [h])]; ring
 
+theorem absI_sq_le {x y : Int} (h : absI x ≤ absI y) : x ^ 2 ≤ y ^ 2 := by
+  have hx := absI_nonneg x
+  have := sq_le_sq_of_abs hx h
+  rwa [absI_sq, absI_sq] at this
+
+/-- **the torus metric is the minimum-image distance**: the squared periodic distance is the smallest of the nine squared
+    Euclidean distances to the images `b + (i·S, j·S)`, `i, j ∈ {−1, 0, 1}`, and it is attained by one of them -/
+theorem periodic2_min_image (S : Int) (a b : Int × Int) (ha1 : 0 ≤ a.1 ∧ a.1 < S) (ha2 : 0 ≤ a.2 ∧ a.2 < S)
+    (hb1 : 0 ≤ b.1 ∧ b.1 < S) (hb2 : 0 ≤ b.2 ∧ b.2 < S) :
+    (∀ i j : Int, (i = -1 ∨ i = 0 ∨ i = 1) → (j = -1 ∨ j = 0 ∨ j = 1) →
+        periodic2 S a b ≤ euclid2 a (b.1 + i * S, b.2 + j * S)) ∧
+    (∃ i j : Int, (i = -1 ∨ i = 0 ∨ i = 1) ∧ (j = -1 ∨ j = 0 ∨ j = 1) ∧
+        periodic2 S a b = euclid2 a (b.1 + i * S, b.2 + j * S)) := by
+  obtain ⟨hx, hx0, hxp, hxm⟩ := wrap1_min_image S a.1 b.1 ha1 hb1
+  obtain ⟨hy, hy0, hyp, hym⟩ := wrap1_min_image S a.2 b.2 ha2 hb2
+  have wx := (wrap1_bounds S a.1 b.1 ha1 hb1).1
+  have wy := (wrap1_bounds S a.2 b.2 ha2 hb2).1
+  constructor
+  · intro i j hi hj
+    unfold periodic2 euclid2
+    have ex : wrap1 S a.1 b.1 ^ 2 ≤ (a.1 - (b.1 + i * S)) ^ 2 := by
+      rcases hi with rfl | rfl | rfl
+      · have := sq_le_sq_of_abs wx hxp; rw [absI_sq] at this
+        calc wrap1 S a.1 b.1 ^ 2 ≤ (a.1 - b.1 + S) ^ 2 := this
+          _ = (a.1 - (b.1 + -1 * S)) ^ 2 := by ring
+      · have := sq_le_sq_of_abs wx hx0; rw [absI_sq] at this
+        calc wrap1 S a.1 b.1 ^ 2 ≤ (a.1 - b.1) ^ 2 := this
+          _ = (a.1 - (b.1 + 0 * S)) ^ 2 := by ring
+      · have := sq_le_sq_of_abs wx hxm; rw [absI_sq] at this
+        calc wrap1 S a.1 b.1 ^ 2 ≤ (a.1 - b.1 - S) ^ 2 := this
+          _ = (a.1 - (b.1 + 1 * S)) ^ 2 := by ring
+    have ey : wrap1 S a.2 b.2 ^ 2 ≤ (a.2 - (b.2 + j * S)) ^ 2 := by
+      rcases hj with rfl | rfl | rfl
+      · have := sq_le_sq_of_abs wy hyp; rw [absI_sq] at this
+        calc wrap1 S a.2 b.2 ^ 2 ≤ (a.2 - b.2 + S) ^ 2 := this
+          _ = (a.2 - (b.2 + -1 * S)) ^ 2 := by ring
+      · have := sq_le_sq_of_abs wy hy0; rw [absI_sq] at this
+        calc wrap1 S a.2 b.2 ^ 2 ≤ (a.2 - b.2) ^ 2 := this
+          _ = (a.2 - (b.2 + 0 * S)) ^ 2 := by ring
+      · have := sq_le_sq_of_abs wy hym; rw [absI_sq] at this
+        calc wrap1 S a.2 b.2 ^ 2 ≤ (a.2 - b.2 - S) ^ 2 := this
+          _ = (a.2 - (b.2 + 1 * S)) ^ 2 := by ring
+    simp only
+    linarith
+  · have px : ∃ i : Int, (i = -1 ∨ i = 0 ∨ i = 1) ∧ wrap1 S a.1 b.1 ^ 2 = (a.1 - (b.1 + i * S)) ^ 2 := by
+      rcases hx with h | h | h
+      · exact ⟨0, by simp, by rw [h, absI_sq]; ring⟩
+      · exact ⟨-1, by simp, by rw [h, absI_sq]; ring⟩
+      · exact ⟨1, by simp, by rw [h, absI_sq]; ring⟩
+    have py : ∃ j : Int, (j = -1 ∨ j = 0 ∨ j = 1) ∧ wrap1 S a.2 b.2 ^ 2 = (a.2 - (b.2 + j * S)) ^ 2 := by
+      rcases hy with h | h | h
+      · exact ⟨0, by simp, by rw [h, absI_sq]; ring⟩
+      · exact ⟨-1, by simp, by rw [h, absI_sq]; ring⟩
+      · exact ⟨1, by simp, by rw [h, absI_sq]; ring⟩
+    obtain ⟨i, hi, ei⟩ := px
+    obtain ⟨j, hj, ej⟩ := py
+    refine ⟨i, j, hi, hj, ?_⟩
+    unfold periodic2 euclid2
+    simp only
+    rw [ei, ej]
+
 theorem euclid2_metric (a b : Int × Int) : euclid2 a b = euclid2 b a ∧ 0 ≤ euclid2 a b ∧ (euclid2 a b = 0 ↔ a = b) := by
   unfold euclid2
   refine ⟨by ring, by positivity, ?_⟩
